@@ -99,7 +99,7 @@ Proof.
 Qed.
 
 (* ---------- P. the pending-reply table has as many entries as queueLen says ---------- *)
-Definition InvP (s : state) : Prop := Z.of_nat (length (resp s)) = queueLen s.
+Definition InvP (s : state) : Prop := Z.of_nat (length (resp s)) = cnt inside (calls s).
 
 Lemma remove_nat_length : forall i l, NoDup l -> In i l -> S (length (remove_nat i l)) = length l.
 Proof.
@@ -117,19 +117,22 @@ Qed.
 Lemma InvP_step : forall c s l s', InvA s -> InvP s -> step c s l = Some s' -> InvP s'.
 Proof.
   intros c s l s' HA HP H. unfold InvP in *.
-  destruct l; inv_step H; unfold with_calls, with_rcvs; cbn [resp queueLen]; try exact HP.
-  - (* LReg *) cbn [length]. lia.
-  - (* LClean *)
-    destruct HA as [_ _ Hr Hd].
-    assert (Hin : In i (resp s)) by (apply Hr; exists c0; split; [assumption|unfold inside; rewrite Heqp; reflexivity]).
-    pose proof (remove_nat_length i (resp s) Hd Hin). lia.
+  destruct l; inv_step H; unfold with_calls, with_rcvs; cbn [resp calls]; try exact HP;
+    try (match goal with Hk : nth_error (calls s) ?i = Some ?k |- context [upd (calls s) ?i ?x] =>
+           rewrite (cnt_upd inside (calls s) i k x Hk) end;
+         try (destruct HA as [_ _ Hr Hd];
+              match goal with Hk : nth_error (calls s) ?i = Some ?k, Hp : k_pc ?k = Uncounted |- _ =>
+                assert (Hin : In i (resp s)) by (apply Hr; exists k; split; [assumption|unfold inside; rewrite Hp; reflexivity]);
+                pose proof (remove_nat_length i (resp s) Hd Hin) end);
+         pcs; fields; usepc; fields; splitifs; fields; cbn [length] in *; lia).
+  - (* Start *) rewrite cnt_app. cbn. lia.
 Qed.
 Theorem InvP_reach : forall c s, reach c s -> InvP s.
 Proof. intros c. induction 1; [reflexivity|eapply InvP_step; eauto using InvA_reach]. Qed.
 
 (* ---------- the simulation ---------- *)
 Definition phase_of (p : pc) : phase :=
-  match p with Init | Pre => PhStarted | Reg | Dialing | Enq | Waiting | Done => PhPre | Cleaned => PhPost | Returned => PhRet end.
+  match p with Init | Pre => PhStarted | Counted | Reg | Dialing | Enq | Waiting | Done | Uncounted => PhPre | Cleaned => PhPost | Returned => PhRet end.
 
 Definition call_sim (s : state) (a : astate) (i : nat) (k : call) : Prop :=
   ph (aget a i) = phase_of (k_pc k) /\
@@ -254,6 +257,12 @@ Ltac nret_new Hk :=
 
 Lemma inside_not_ret : forall x, inside x = true -> is_ret x = false.
 Proof. intros x. unfold inside, is_ret. destruct (k_pc x); intros; try discriminate; reflexivity. Qed.
+Lemma counted_not_ret : forall x, counted x = true -> is_ret x = false.
+Proof. intros x. unfold counted, is_ret. destruct (k_pc x); intros; try discriminate; reflexivity. Qed.
+Lemma cnt_and_le : forall f g l, (cnt (fun k => f k && g k) l <= cnt f l)%Z.
+Proof. induction l as [|h t IH]; cbn [cnt]; [lia|]. destruct (f h), (g h); cbn [andb]; lia. Qed.
+Lemma cnt_counted_by_le : forall p l, (cnt (counted_by p) l <= cnt counted l)%Z.
+Proof. induction l as [|h t IH]; cbn [cnt]; [lia|]. unfold counted_by at 1. destruct (counted h), (Nat.eqb p (k_px h)); cbn [andb]; lia. Qed.
 Lemma invoked_not_ret : forall x, invoked x = true -> is_ret x = false.
 Proof. intros x. unfold invoked, is_ret. destruct (k_pc x); intros; try discriminate; reflexivity. Qed.
 
@@ -269,7 +278,7 @@ Proof.
     { apply aget_none. intros k Hin. pose proof (s_dom s a HS _ _ Hin). lia. }
     rewrite Hnone. eexists. split; [reflexivity|].
     destruct HS as [H1 H2 H3 H4 H5 H6 H7 H8].
-    assert (Hn : nret (with_calls s (calls s ++ [mkcall ow (now s) (now s + d) Init (now s) (now s) false false None 0])) = nret s).
+    assert (Hn : nret (with_calls s (calls s ++ [mkcall px ow (now s) (now s + d) Init (now s) (now s) false false None 0 0 0])) = nret s).
     { unfold nret, with_calls; cbn [calls]. rewrite cnt_app. cbn. lia. }
     split; cbn [acs started returned recvd sends errored]; unfold with_calls; cbn [calls wire sent]; auto.
     + apply aset_keys. exact H1.
@@ -277,28 +286,20 @@ Proof.
     + apply all_app.
       * intros j kj Hj. specialize (H3 j kj Hj). unfold call_sim in *.
         assert (j < length (calls s))%nat by (apply nth_error_Some; congruence).
-        rewrite aget_aset_neq by lia. fold (with_calls s (calls s ++ [mkcall ow (now s) (now s + d) Init (now s) (now s) false false None 0])). rewrite Hn. exact H3.
+        rewrite aget_aset_neq by lia. fold (with_calls s (calls s ++ [mkcall px ow (now s) (now s + d) Init (now s) (now s) false false None 0 0 0])). rewrite Hn. exact H3.
       * unfold call_sim. rewrite aget_aset_eq. cbn. repeat split; auto. intros; discriminate.
     + rewrite app_length. cbn [length]. lia.
-    + fold (with_calls s (calls s ++ [mkcall ow (now s) (now s + d) Init (now s) (now s) false false None 0])). rewrite Hn. exact H5.
+    + fold (with_calls s (calls s ++ [mkcall px ow (now s) (now s + d) Init (now s) (now s) false false None 0 0 0])). rewrite Hn. exact H5.
     + intros id Hin. destruct (H8 id Hin) as [j [kj [Hj Hrest]]]. exists j, kj. split; [|exact Hrest].
       rewrite nth_error_app1; [exact Hj|apply nth_error_Some; congruence].
   - (* LPre *) inv_step H. exists a. split; [reflexivity|].
     eapply (Sim_same_phase s _ a i c0 (set_pc c0 Pre)); eauto; pcs; try rewrite Heqp; try reflexivity; congruence.
-  - (* LReg *) inv_step H. cbn [events_of arun astep].
-    pose proof (s_get s a HS _ _ Heqo) as [Gp [Gi Gc]]. rewrite Heqp in Gp. cbn [phase_of] in Gp. rewrite Gp.
-    assert (Hfresh : (id_of i =? 0) || id_used a (id_of i) = false).
-    { rewrite id_of_nz. cbn [orb]. destruct (id_used a (id_of i)) eqn:E; [|reflexivity]. exfalso.
-      unfold id_used in E. apply existsb_exists in E. destruct E as [[cc kk] [Hin Hm]]. cbn [snd] in Hm.
-      pose proof (aget_in a cc kk (s_keys s a HS) Hin) as Hg. pose proof (s_dom s a HS _ _ Hin) as Hlt.
-      apply nth_error_Some in Hlt. destruct (nth_error (calls s) cc) as [kc|] eqn:Hkc; [|congruence].
-      pose proof (s_get s a HS _ _ Hkc) as [Cp [Ci _]]. rewrite Hg in Cp, Ci.
-      destruct (ph kk) eqn:Ek; try discriminate Hm; rewrite <- Cp in Ci; cbn beta iota in Ci; apply N.eqb_eq in Hm; rewrite Ci in Hm;
-        apply id_of_inj in Hm; subst cc; rewrite Heqo in Hkc; inversion Hkc; subst kc; rewrite Heqp in Cp; discriminate Cp. }
-    rewrite Hfresh. eexists. split; [reflexivity|].
-    eapply (Sim_set s _ a i c0 (set_pc c0 Reg)); eauto; try reflexivity; pcs; try congruence.
-    + nret_new Heqo. cbn. lia.
-    + nret_new Heqo. cbn. rewrite (s_returned s a HS). lia.
+  - (* LReg: resp.Store, after the counter *)
+    inv_step H; (exists a; split; [reflexivity|];
+      match goal with Hk : nth_error (calls s) ?i = Some ?k |- Sim ?s1 _ =>
+        match s1 with context [upd (calls s) i ?x] =>
+          apply (Sim_same_phase s s1 a i k x HS Hk); [reflexivity|pcs; splitifs; fields; usepc; reflexivity|congruence|reflexivity|reflexivity]
+        end end).
   - (* LQueueFull: pre-filter and post-filter with nothing registered in between *)
     inv_step H. cbn [events_of].
     pose proof (s_get s a HS _ _ Heqo) as [Gp [Gi Gc]]. rewrite Heqp in Gp. cbn [phase_of] in Gp.
@@ -383,16 +384,21 @@ Proof.
     destruct HA as [Aq An Ar Ad]. unfold InvP in HP.
     pose proof (cnt_two_bound inside is_ret (calls s) i c0 inside_not_ret Heqo
                   ltac:(unfold inside; rewrite Heqp; reflexivity) ltac:(unfold is_ret; rewrite Heqp; reflexivity)) as B1.
+    pose proof (cnt_two_bound counted is_ret (calls s) i c0 counted_not_ret Heqo
+                  ltac:(unfold counted; rewrite Heqp; reflexivity) ltac:(unfold is_ret; rewrite Heqp; reflexivity)) as B3.
+    pose proof (cnt_nonneg counted (calls s)) as P3.
     pose proof (cnt_disjoint invoked is_ret (calls s) invoked_not_ret) as B2.
     pose proof (cnt_nonneg inside (calls s)) as P1. pose proof (cnt_nonneg invoked (calls s)) as P2.
-    pose proof (s_started s a HS) as Hst. pose proof (s_returned s a HS) as Hrt. fold (nret s) in B1, B2.
-    assert (Hokc : ((Z.to_N (queueLen s) <=? started a - retd_at_post (aget a i) - 1)
+    pose proof (s_started s a HS) as Hst. pose proof (s_returned s a HS) as Hrt. fold (nret s) in B1, B2, B3.
+    pose proof (Aq (k_px c0)) as Aq0. pose proof (cnt_counted_by_le (k_px c0) (calls s)) as Ble.
+    pose proof (cnt_nonneg (counted_by (k_px c0)) (calls s)) as P4.
+    assert (Hokc : ((Z.to_N (queueLen s (k_px c0)) <=? started a - retd_at_post (aget a i) - 1)
                  && (Z.to_N (invokeNum s - 1) <=? started a - retd_at_post (aget a i) - 1)
                  && (N.of_nat (length (resp s)) <=? started a - retd_at_post (aget a i) - 1)) = true) by lia.
-    cbn [arun astep]. rewrite Gp. cbv zeta. cbn [queueLen invokeNum resp]. change (k_out (set_ret c0 (now s))) with (k_out c0). rewrite Ho, Hokc. cbn [andb].
+    cbn [arun astep]. rewrite Gp. cbv zeta. cbn [queueLen invokeNum resp]. change (k_px (set_ret c0 (now s))) with (k_px c0). change (k_out (set_ret c0 (now s))) with (k_out c0). rewrite Ho, Hokc. cbn [andb].
     assert (Hnr : nret (mkst (now s) (upd (calls s) i (set_ret c0 (now s))) (rcvs s) (queueLen s) (invokeNum s - 1)%Z (resp s) (conn_open s) (lock s) (sendq s) (wire s) (sent s) (tr s)) = (nret s + 1)%Z).
     { nret_new Heqo. cbn. reflexivity. }
-    destruct o as [p| | |]; cbn [cls_of].
+    destruct o as [p| | | |]; cbn [cls_of].
     + (* reply *)
       assert (Hoko : existsb (fun x : N * N => let '(i0, py) := x in (i0 =? aid (aget a i)) && (py =? p)) (sends a) = true).
       { apply existsb_exists. exists (id_of i, p). split; [rewrite (s_sends s a HS); apply O2; exact Ho|]. rewrite Gi, !N.eqb_refl. reflexivity. }
@@ -410,6 +416,9 @@ Proof.
       eapply (Sim_set s _ a i c0 (set_ret c0 (now s))); eauto; try reflexivity; pcs; try congruence; cbn [ph aid retd_at_post]; try (intros; discriminate); try (rewrite Hnr; lia).
       intros id [<-|Hin]; [right; repeat split; auto|left; exact Hin].
     + (* one-way *)
+      eexists. split; [reflexivity|].
+      eapply (Sim_set s _ a i c0 (set_ret c0 (now s))); eauto; try reflexivity; pcs; try congruence; cbn [ph aid retd_at_post]; try (intros; discriminate); try (rewrite Hnr; lia); try (intros id Hin; left; exact Hin).
+    + (* cancelled: reported as the timeout error *)
       eexists. split; [reflexivity|].
       eapply (Sim_set s _ a i c0 (set_ret c0 (now s))); eauto; try reflexivity; pcs; try congruence; cbn [ph aid retd_at_post]; try (intros; discriminate); try (rewrite Hnr; lia); try (intros id Hin; left; exact Hin).
   - (* LSendTake: the peer reads a request *)
@@ -451,7 +460,65 @@ Proof.
     inv_step H; (exists a; split; [reflexivity|]; eapply Sim_frame; eauto).
   - (* LIdleClose *)
     inv_step H; (exists a; split; [reflexivity|]; eapply Sim_frame; eauto).
+  - (* LCancel *)
+    inv_step H; (exists a; split; [reflexivity|];
+      match goal with Hk : nth_error (calls s) ?i = Some ?k |- Sim ?s1 _ =>
+        match s1 with context [upd (calls s) i ?x] =>
+          apply (Sim_same_phase s s1 a i k x HS Hk); [reflexivity|pcs; splitifs; fields; usepc; reflexivity|congruence|reflexivity|reflexivity]
+        end end).
+  - (* LFilterErr: the same observation points as a full invoke queue *)
+    inv_step H. cbn [events_of].
+    pose proof (s_get s a HS _ _ Heqo) as [Gp [Gi Gc]]. rewrite Heqp in Gp. cbn [phase_of] in Gp.
+    assert (Hfresh : (id_of i =? 0) || id_used a (id_of i) = false).
+    { rewrite id_of_nz. cbn [orb]. destruct (id_used a (id_of i)) eqn:E; [|reflexivity]. exfalso.
+      unfold id_used in E. apply existsb_exists in E. destruct E as [[cc kk] [Hin Hm]]. cbn [snd] in Hm.
+      pose proof (aget_in a cc kk (s_keys s a HS) Hin) as Hg. pose proof (s_dom s a HS _ _ Hin) as Hlt.
+      apply nth_error_Some in Hlt. destruct (nth_error (calls s) cc) as [kc|] eqn:Hkc; [|congruence].
+      pose proof (s_get s a HS _ _ Hkc) as [Cp [Ci _]]. rewrite Hg in Cp, Ci.
+      destruct (ph kk) eqn:Ek; try discriminate Hm; rewrite <- Cp in Ci; cbn beta iota in Ci; apply N.eqb_eq in Hm; rewrite Ci in Hm;
+        apply id_of_inj in Hm; subst cc; rewrite Heqo in Hkc; inversion Hkc; subst kc; rewrite Heqp in Cp; discriminate Cp. }
+    (* an intermediate picture in which the call stands registered *)
+    set (smid := with_calls s (upd (calls s) i (set_pc c0 Reg))).
+    assert (Smid : Sim smid (mkast (aset a i (mkacall PhPre (id_of i) 0)) (started a) (returned a) (recvd a) (sends a) (errored a))).
+    { eapply (Sim_set s smid a i c0 (set_pc c0 Reg)); eauto; try reflexivity; pcs; try congruence.
+      + unfold smid, with_calls. nret_new Heqo. cbn. lia.
+      + unfold smid, with_calls. nret_new Heqo. cbn. rewrite (s_returned s a HS). lia. }
+    assert (Hkm : nth_error (calls smid) i = Some (set_pc c0 Reg)) by (unfold smid, with_calls; cbn [calls]; eapply nth_upd_eq; eauto).
+    cbn [arun astep]. rewrite Gp, Hfresh. cbn [arun astep]. rewrite aget_aset_eq. cbn [ph aid].
+    eexists. split; [reflexivity|].
+    match goal with |- Sim ?s1 _ =>
+      eapply (Sim_set smid s1 _ i (set_pc c0 Reg) (set_full c0)); [exact Smid|exact Hkm|unfold smid, with_calls; cbn [calls]; rewrite upd_upd; reflexivity
+        |reflexivity|reflexivity|pcs; congruence|reflexivity|reflexivity| | | |] end; cbn [retd_at_post returned errored].
+    + intros _. unfold nret, with_calls; cbn [calls]. rewrite (nret_upd s i c0 _ Heqo); [|unfold is_ret; rewrite Heqp; reflexivity]. cbn. rewrite (s_returned s a HS). lia.
+    + unfold nret, smid, with_calls; cbn [calls]. rewrite !(nret_upd s i c0 _ Heqo); try (unfold is_ret; rewrite Heqp; reflexivity). cbn. lia.
+    + unfold nret, with_calls; cbn [calls]. rewrite (nret_upd s i c0 _ Heqo); [|unfold is_ret; rewrite Heqp; reflexivity]. cbn. rewrite (s_returned s a HS). lia.
+    + intros id Hin. left. exact Hin.
+  - (* LCount: the first instruction after the pre-filter *) inv_step H. cbn [events_of arun astep].
+    pose proof (s_get s a HS _ _ Heqo) as [Gp [Gi Gc]]. rewrite Heqp in Gp. cbn [phase_of] in Gp. rewrite Gp.
+    assert (Hfresh : (id_of i =? 0) || id_used a (id_of i) = false).
+    { rewrite id_of_nz. cbn [orb]. destruct (id_used a (id_of i)) eqn:E; [|reflexivity]. exfalso.
+      unfold id_used in E. apply existsb_exists in E. destruct E as [[cc kk] [Hin Hm]]. cbn [snd] in Hm.
+      pose proof (aget_in a cc kk (s_keys s a HS) Hin) as Hg. pose proof (s_dom s a HS _ _ Hin) as Hlt.
+      apply nth_error_Some in Hlt. destruct (nth_error (calls s) cc) as [kc|] eqn:Hkc; [|congruence].
+      pose proof (s_get s a HS _ _ Hkc) as [Cp [Ci _]]. rewrite Hg in Cp, Ci.
+      destruct (ph kk) eqn:Ek; try discriminate Hm; rewrite <- Cp in Ci; cbn beta iota in Ci; apply N.eqb_eq in Hm; rewrite Ci in Hm;
+        apply id_of_inj in Hm; subst cc; rewrite Heqo in Hkc; inversion Hkc; subst kc; rewrite Heqp in Cp; discriminate Cp. }
+    rewrite Hfresh. eexists. split; [reflexivity|].
+    eapply (Sim_set s _ a i c0 (set_pc c0 Counted)); eauto; try reflexivity; pcs; try congruence.
+    + nret_new Heqo. cbn. lia.
+    + nret_new Heqo. cbn. rewrite (s_returned s a HS). lia.
+  - (* LUncount *)
+    inv_step H; (exists a; split; [reflexivity|];
+      match goal with Hk : nth_error (calls s) ?i = Some ?k |- Sim ?s1 _ =>
+        match s1 with context [upd (calls s) i ?x] =>
+          apply (Sim_same_phase s s1 a i k x HS Hk); [reflexivity|pcs; splitifs; fields; usepc; reflexivity|congruence|reflexivity|reflexivity]
+        end end).
+  - (* LCloseOld *)
+    inv_step H; (exists a; split; [reflexivity|]; eapply Sim_frame; eauto).
 Qed.
+
+
+
 
 
 Lemma sim_run : forall c ls s a s', reach c s -> Sim s a -> run c s ls = Some s' ->
